@@ -216,15 +216,16 @@ CHECKS = {
         design="6/C13",
     ),
     "C10": dict(
-        text=("37 theorems: for all families (ties included) the step-up loop equals the textbook step-up rule "
+        text=("48 theorems: for all families (ties included) the step-up loop equals the textbook step-up rule "
               "(rejection flags, running-min adjusted p-values, adjusted alphas), the step-down loop equals Holm's rule; "
               "flagged rejected iff pvalue <= alpha_adj, and iff pvalue_adj <= alpha (exact arithmetic); adjusted "
               "p-values in [pvalue,1] and order-preserving; the GENERATED Benjamini/Bonferroni adjust functions give "
-              "well-formed families so adjust_fdr (BH, BY) and Holm-Bonferroni ARE the named procedures; neighbouring "
-              "ties get equal pvalue_adj/flags; alpha_adj order-dependent at ties (K2 witness). Tie: translator for "
+              "well-formed families so adjust_fdr (BH, BY) and all four adjust_fwer procedures (Holm / Hochberg x "
+              "Bonferroni / Sidak; Props/C10Fwer.lean) ARE the named procedures — the Sidak ones under seven laws of the "
+              "real power x**y, proved for Real.rpow in Props/C10Real.lean; neighbouring ties get equal pvalue_adj/flags; alpha_adj order-dependent at ties (K2 witness). Tie: translator for "
               "adjust + exact correspondence of the hand-modelled loops on Fraction p-values; search vs textbook spec."),
-        note=NOTE_COMMON + "Loops, stable sort and result copying are hand-modelled; Sidak theorems are not instantiated "
-             "(real power); arbitrary-permutation invariance and purity are checked on every case, not proved.",
+        note=NOTE_COMMON + "Loops, stable sort and result copying are hand-modelled; Sidak theorems take the power "
+             "function as a parameter with the laws C10.RpowLaws (float ** is its rounding); arbitrary-permutation invariance and purity are checked on every case, not proved.",
         technique="Lean 4 proof (generated adjust + hand-modelled loops) + exact correspondence",
         design="6/C10",
     ),
@@ -241,12 +242,13 @@ CHECKS = {
         design="6/C11",
     ),
     "C12": dict(
-        text=("20 theorems: the pair construction is exactly the documented one (control vs every other variant in "
+        text=("25 theorems: the pair construction is exactly the documented one (control vs every other variant in "
               "sorted order; all pairs with the smaller id as control; no duplicates; a single result iff exactly one "
               "pair, raise otherwise); the OR-merged request covers every statistic every metric declares (covariance "
               "pairs up to order) for any list of metrics; analysis_frame: the GENERATED Mean/RatioOfMeans analysis is a "
               "function of the declared statistics only (incl. the pooled a+b), so an entry cannot depend on other "
-              "metrics. Tie: correspondence of Model/Experiment.lean with the real Experiment (pairs/raise, declared "
+              "metrics; the same for power analysis (power_inputs_frame: metric mean, variance and count; "
+              "merge_power_superset: the request of Experiment.solve_power covers every aggregated power metric). Tie: correspondence of Model/Experiment.lean with the real Experiment (pairs/raise, declared "
               "columns); search: entry vs metric analysed alone, custom metrics receive what they declared, order, "
               "solve_power."),
         note=NOTE_COMMON + "Model/Experiment.lean is hand-written. The stand-alone clause for SampleRatio / resampling / "
